@@ -1,5 +1,6 @@
 import SJ.Properties.C10
 import SJ.Proofs.SourceLevelA
+import SJ.Proofs.SourceLevelD
 set_option linter.unusedVariables false
 /-
 C10 — source level. The theorems of Properties/C10.lean composed with the source ties of DESIGN §6.3: each statement
@@ -73,5 +74,55 @@ theorem C10_source_array_marshal_exact (pj : PJ) (p e : Nat) (es : LVals) (dst :
     ∃ st, runFun goFuns goArray_MarshalJSONBuffer F ⟨arrEnv pj { lim := e, off := p + 1 } dst, pj.tape⟩ =
         .ret st [.bytes (dst ++ renderJ (erase (.arr p e es))), .bool false] ∧ st.tape = pj.tape :=
   SJ.SourceLevelA.C10_source_array_marshal_exact pj p e es dst hok hf hb F hF
+
+open SJ.Generated SJ.GoSem SJ.GoIter SJ.Layout SJ.SourceLevelD SJ.WalkLayout SJ.MarshalExact SJ.RenderParse SJ.GoObject SJ.GoMarshal SJ.ParseDefs in
+/-- **The root iterator prints all roots, source level** (`C10_marshal_roots` on the source).  If the tape holds the located
+    root values `v :: vs` (root entries one after the other, gaps allowed anywhere) and all their floats are finite, then
+    running the regenerated `Iter.MarshalJSONBuffer(dst)` from the iterator `ParsedJson.Iter()` builds (`Iter.ofPJ`: view =
+    the whole tape, offset 0) returns `dst ++` the canonical texts of the root values, in order, separated by newlines
+    (`renderJRoots`: a function of the abstract documents only), and `nil`; the tape is untouched.
+    Discharged: the view premise (`lim = len(tape)`), `cur < 2^63` (`cur = 0`), non-divergence of the model (the property
+    computes the result).  Remaining: `BufOK pj` (Go `int` buffer lengths; `OkRoots` does not bound the buffers' total size)
+    and the interpreter's loop budget. -/
+theorem C10_source_roots_marshal_all (pj : PJ) (v : LVal) (vs : List LVal) (dst : Bytes) (h : OkRoots pj (v :: vs) 0)
+    (hfs : ∀ x ∈ v :: vs, FloatsOk x) (hb : BufOK pj) (F : Nat) (hF : 3 * pj.tape.size + 25 ≤ F) :
+    ∃ st, runFun goFuns goIter_MarshalJSONBuffer F ⟨initEnv pj (Iter.ofPJ pj) dst, pj.tape⟩ =
+        .ret st [.bytes (dst ++ renderJRoots ((v :: vs).map erase)), .bool false] ∧ st.tape = pj.tape :=
+  SJ.SourceLevelD.C10_source_roots_marshal_all pj v vs dst h hfs hb F hF
+
+open SJ.Generated SJ.GoSem SJ.GoIter SJ.Layout SJ.SourceLevelD SJ.WalkLayout SJ.MarshalExact SJ.RenderParse SJ.GoObject SJ.GoMarshal SJ.ParseDefs in
+/-- **`ForEach` hands out the roots and each prints its own document, source level** (`C02_source_forEach` ∘
+    `C10_source_marshal_exact`).  If the tape holds the located root values `vs` with finite floats, then running the
+    regenerated `ParsedJson.ForEach` (callback always answering `nil`) returns `nil`, leaves the tape alone, and the log of
+    what the callback was handed is the encoding of exactly one iterator per root value, in order (`Forall2`); each such
+    iterator stands on its value (`RootIter`), and running the regenerated `Iter.MarshalJSONBuffer(dst)` from it returns, for
+    every `dst`, `dst ++ renderJ (erase v)` — the canonical text of that root value — and `nil`.
+    Discharged: for every handed-out iterator the marshal tie's `OnNode`, view-inside-the-tape (`RootIter` says so) and
+    `cur < 2^63`.  Remaining: `BufOK pj`, the answers queue (`N ≥ len(tape)`) and fuel `3·len(tape) + 25`. -/
+theorem C10_source_roots_marshal (pj : PJ) (vs : List LVal) (h : OkRoots pj vs 0) (hfs : ∀ x ∈ vs, FloatsOk x)
+    (hb : BufOK pj) (N F : Nat) (hN : pj.tape.size ≤ N) (hF : 3 * pj.tape.size + 25 ≤ F) :
+    ∃ s its, runFun goFuns goParsedJson_ForEach F ⟨GoPJForEach.feStore pj (List.replicate N false), pj.tape⟩ =
+        .ret s [.bool false] ∧
+      s.tape = pj.tape ∧ GoPJForEach.logOf s.env = GoPJForEach.encIters its ∧
+      Forall2 (fun v it => RootIter pj v it ∧
+        ∀ dst : Bytes, ∃ st, runFun goFuns goIter_MarshalJSONBuffer F ⟨initEnv pj it dst, pj.tape⟩ =
+          .ret st [.bytes (dst ++ renderJ (erase v)), .bool false] ∧ st.tape = pj.tape) vs its :=
+  SJ.SourceLevelD.C10_source_roots_marshal pj vs h hfs hb N F hN hF
+
+open SJ.Generated SJ.GoSem SJ.GoIter SJ.Layout SJ.SourceLevelD SJ.WalkLayout SJ.MarshalExact SJ.RenderParse SJ.GoObject SJ.GoMarshal SJ.ParseDefs in
+/-- **… and the text the root iterator returns is ND-JSON for the same documents** (`C10_roots_roundtrip` on what the source
+    returns).  If moreover every root value is a container with well-formed UTF-8 strings and finite floats (`Clean`,
+    `IsRoot`), the bytes `pj.Iter().MarshalJSONBuffer(nil)` returns are accepted by the per-line grammar `Spec.ndText` as the
+    same documents in order (`RootsRel NumSame`: same nesting, member order, keys, strings, numerically equal numbers); and
+    when no document contains `-0.0` re-rendering what the grammar read is a fixed point. -/
+theorem C10_source_roots_read_back (pj : PJ) (v : LVal) (vs : List LVal) (h : OkRoots pj (v :: vs) 0)
+    (hfs : ∀ x ∈ v :: vs, FloatsOk x) (hc : ∀ x ∈ (v :: vs).map erase, Clean x ∧ IsRoot x) (hb : BufOK pj) (F : Nat)
+    (hF : 3 * pj.tape.size + 25 ≤ F) :
+    ∃ txt st, runFun goFuns goIter_MarshalJSONBuffer F ⟨initEnv pj (Iter.ofPJ pj) #[], pj.tape⟩ =
+        .ret st [.bytes txt, .bool false] ∧ st.tape = pj.tape ∧
+      (∃ l, Spec.ndText txt.toList = .accept (.arr l) ∧ RootsRel NumSame ((v :: vs).map erase) l) ∧
+      ((∀ x ∈ (v :: vs).map erase, NoNegZero x) →
+        ∃ l, Spec.ndText txt.toList = .accept (.arr l) ∧ renderJRoots (l.map ofSpec) = txt) :=
+  SJ.SourceLevelD.C10_source_roots_read_back pj v vs h hfs hc hb F hF
 
 end SJ.Properties.C10
